@@ -860,3 +860,79 @@ Proof.
     apply Rabs_le_inv in Q. rewrite plus_IZR. split; lra. }
   cbn. rewrite !A by assumption. auto.
 Qed.
+
+(* ================================================================================================================== *)
+(* 11. The radix tree under arbitrary operation sequences (entry RadixOps) and history independence of the detector models *)
+(* ================================================================================================================== *)
+
+(* the two operations the detector performs on the third-party tree, in any interleaving *)
+Inductive rop := RAppend (k : key4) | RQuery (k : key4).
+(* the answers of the queries, the tree being threaded through the sequence (this model IS stateful) *)
+Fixpoint run_ops (t : trie) (ops : list rop) : list bool :=
+  match ops with
+  | [] => []
+  | RAppend k :: r => run_ops (rappend (tkey k) t) r
+  | RQuery q :: r => rsearch (tkey q) t :: run_ops t r
+  end.
+(* reference: a query is answered by the keys appended BEFORE it, through the ancestor-or-equal relation on the three coordinates *)
+Fixpoint ops_ref (seen : list key4) (ops : list rop) : list bool :=
+  match ops with
+  | [] => []
+  | RAppend k :: r => ops_ref (seen ++ [k]) r
+  | RQuery q :: r => existsb (fun k => rel4b k q) seen :: ops_ref seen r
+  end.
+Definition rop_key (o : rop) : key4 := match o with RAppend k => k | RQuery k => k end.
+
+Lemma rbuild_snoc keys k : rbuild (keys ++ [k]) = rappend k (rbuild keys).
+Proof. unfold rbuild, rbuild_from. now rewrite fold_left_app. Qed.
+
+(* the trie model satisfies the trie specification used by the overlap proof under every history: built from Radix.stored_append, twf_append,
+   search_spec (through overlap_spec) and Digits.prefix_iff_anc (through tkey_overlap_iff) *)
+Theorem run_ops_spec ops : forall seen, (forall k, In k seen -> in_range4 k) -> (forall o, In o ops -> in_range4 (rop_key o)) ->
+  run_ops (rbuild (map tkey seen)) ops = ops_ref seen ops.
+Proof.
+  induction ops as [|o r IH]; intros seen Rs Ro; [reflexivity|]. destruct o as [k|q]; cbn [run_ops ops_ref].
+  - rewrite <- rbuild_snoc. change (map tkey seen ++ [tkey k]) with (map tkey seen ++ map tkey [k]). rewrite <- map_app. apply IH.
+    + intros x Hx. apply in_app_iff in Hx. destruct Hx as [Hx|[<-|[]]]; [now apply Rs|]. apply (Ro (RAppend k)). now left.
+    + intros x Hx. apply Ro. now right.
+  - f_equal.
+    + pose proof (tree_model_is_ref seen [q] Rs ltac:(intros x [<-|[]]; apply (Ro (RQuery q)); now left)) as E.
+      unfold tree_model, tree_ref in E. cbn in E. now injection E.
+    + apply IH; [exact Rs|]. intros x Hx. apply Ro. now right.
+Qed.
+Corollary run_ops_spec_empty ops : (forall o, In o ops -> in_range4 (rop_key o)) -> run_ops rempty ops = ops_ref [] ops.
+Proof. intros R. apply (run_ops_spec ops []); [intros k []|exact R]. Qed.
+(* consequences: the answer of a query does not depend on the order or multiplicity of the earlier appends, nor on earlier queries *)
+Lemma ops_ref_set_only ops : forall s1 s2, (forall k, In k s1 <-> In k s2) -> ops_ref s1 ops = ops_ref s2 ops.
+Proof.
+  induction ops as [|o r IH]; intros s1 s2 H; [reflexivity|]. destruct o as [k|q]; cbn [ops_ref].
+  - apply IH. intros x. rewrite !in_app_iff. rewrite H. tauto.
+  - f_equal; [|now apply IH]. apply eq_true_iff_eq. rewrite !existsb_exists. split; intros (k & Hk & R); exists k; (split; [now apply H|exact R]).
+Qed.
+
+(* --- the detector models are pure: a sequence of calls is answered call by call, whatever came before --- *)
+Inductive dcall :=
+| CExtPair (a b : string) | CExtArray (l1 l2 : list string) | CSpPair (a b : string) | CSpArray (l1 l2 : list string).
+Definition eval_call (c : dcall) : result bool :=
+  match c with
+  | CExtPair a b => ext_overlap a b
+  | CExtArray l1 l2 => ext_array l1 l2
+  | CSpPair a b => sp_overlap a b
+  | CSpArray l1 l2 => sp_array l1 l2
+  end.
+Definition eval_seq (cs : list dcall) : list (result bool) := map eval_call cs.
+Theorem eval_seq_app h cs : eval_seq (h ++ cs) = eval_seq h ++ eval_seq cs.
+Proof. apply map_app. Qed.
+(* the answer to a call is the same after ANY two histories, and is the answer of the standalone call *)
+Theorem eval_seq_history_independent h1 h2 c :
+  nth (length h1) (eval_seq (h1 ++ [c])) Err = eval_call c /\ nth (length h2) (eval_seq (h2 ++ [c])) Err = eval_call c.
+Proof.
+  assert (A : forall h, nth (length h) (eval_seq (h ++ [c])) Err = eval_call c).
+  { intros h. rewrite eval_seq_app. unfold eval_seq at 1. rewrite <- (map_length eval_call h). fold (eval_seq h).
+    rewrite app_nth2 by lia. now rewrite Nat.sub_diag. }
+  split; apply A.
+Qed.
+(* every spatial call starts from the empty tree: nothing stored by an earlier call can be seen *)
+Theorem sp_array_starts_from_empty_tree l1 l2 :
+  sp_array l1 l2 = match sp_insert l1 rempty with Err => Err | Ok t => sp_query (match l1 with [] => true | _ => false end) t l2 end.
+Proof. reflexivity. Qed.
